@@ -372,4 +372,31 @@ def delDN (st : DNState) (name scope : List Char) : Except DnErr DNState :=
 def getDN (st : DNState) : List DN :=
   st.names.map fun x => ⟨x.name, storedScopeGet st.sheets x, x.data, x.comment⟩
 
+/-! ## setters that accept and ignore invalid values (sheetview.go setSheetView, sheet.go setPageSetUp) -/
+
+/-- `view.View` after `SetSheetView` with `View = &new`: stored only if in the name list; the
+call returns nil either way -/
+def setView (old new : List Char) : List Char :=
+  if Facts.C18.sheetViewNames.any (fun n => n.toList == new) then new else old
+
+/-- `GetSheetView`: an empty stored view reads "normal" -/
+def getView (v : List Char) : List Char := if v.isEmpty then "normal".toList else v
+
+/-- `view.ZoomScale` after `SetSheetView` with an integral `ZoomScale = &new` -/
+def setZoom (old new : Int) : Int :=
+  if new ≥ (Facts.C18.zoomMin : Int) ∧ new ≤ (Facts.C18.zoomMax : Int) then new else old
+
+/-- `GetSheetView`: a stored zoom outside the bounds reads 100 -/
+def getZoom (z : Int) : Int :=
+  if z ≥ (Facts.C18.zoomMin : Int) ∧ z ≤ (Facts.C18.zoomMax : Int) then z else 100
+
+/-- `PageSetUp.FirstPageNumber` (none = attribute absent) after `SetPageLayout` with `FirstPageNumber = &new` -/
+def setFirstPage (old : Option Nat) (new : Nat) : Option Nat :=
+  if new > Facts.C18.firstPageNumberAbove then some new else old
+
+/-- `GetPageLayout`: default 1; a stored 0 (or nothing) reads 1 -/
+def getFirstPage : Option Nat → Nat
+  | some n => if n ≠ 0 then n else 1
+  | none => 1
+
 end XlModel.Settings
